@@ -30,6 +30,29 @@ Theorem decode_int_spec : forall (signed : bool) (n : Z) (scale offset : f64) (r
 Proof. exact ProofsFloat.decode_int_spec. Qed.
 Print Assumptions decode_int_spec.
 
+(* --- which Go type a kind decodes to, and the whole observable of an integer-kind signal *)
+Theorem value_type_spec : forall (k : kind) (signed : bool) (n : Z) (scale offset : f64) (raw : Z),
+  match decode_std k signed n scale offset raw with
+  | VFlag b => k = KFlag /\ b = decode_flag raw
+  | VInt z => k = KInteger /\ signed = true /\ z = decode_int true n scale offset raw
+  | VUint z => k = KInteger /\ signed = false /\ z = decode_int false n scale offset raw
+  | VFloat f => (k = KDecimal \/ k = KCustom) /\ f = decode_float signed n scale offset raw
+  end.
+Proof. exact ProofsFloat.value_type_spec. Qed.
+Print Assumptions value_type_spec.
+
+Theorem decode_std_integer_spec : forall (signed : bool) (n : Z) (scale offset : f64) (raw sc off : Z),
+  1 <= n <= 64 -> 0 <= raw < 2 ^ n ->
+  finite64 scale = true -> B2R64 scale = IZR sc ->
+  finite64 offset = true -> B2R64 offset = IZR off ->
+  (if signed then - two63 <= sc < two63 /\ - two63 <= off < two63 /\
+                  - two63 <= sext n raw * sc + off < two63
+   else - two63 < sc < two64 /\ - two63 < off < two64 /\ 0 <= raw * sc + off < two64) ->
+  decode_std KInteger signed n scale offset raw =
+  if signed then VInt (sext n raw * sc + off) else VUint (raw * sc + off).
+Proof. exact ProofsFloat.decode_std_integer_spec. Qed.
+Print Assumptions decode_std_integer_spec.
+
 (* --- float kinds: float64(value)*scale + offset with the two roundings of binary64 *)
 Theorem decode_float_spec : forall (signed : bool) (n : Z) (scale offset : f64) (raw : Z),
   1 <= n <= 64 -> 0 <= raw < 2 ^ n ->
